@@ -231,4 +231,626 @@ theorem tally_congr_selected (map : List (String × Nat)) (cols : List String) (
           subst this
           cases g <;> simp [ihh]
 
+
+/-! ## distinct labels in order of first appearance -/
+
+theorem snoc_induction {α} {P : List α → Prop} (nil : P []) (snoc : ∀ l a, P l → P (l ++ [a])) : ∀ l, P l := by
+  intro l
+  rw [← List.reverse_reverse l]
+  induction l.reverse with
+  | nil => exact nil
+  | cons a t ih => rw [List.reverse_cons]; exact snoc _ _ ih
+
+theorem distinctInOrder_nil {κ} [DecidableEq κ] : distinctInOrder ([] : List κ) = [] := rfl
+
+theorem distinctInOrder_snoc {κ} [DecidableEq κ] (l : List κ) (a : κ) :
+    distinctInOrder (l ++ [a]) = if a ∈ distinctInOrder l then distinctInOrder l else distinctInOrder l ++ [a] := by
+  simp [distinctInOrder, List.foldl_append]
+
+theorem distinct_spec {κ} [DecidableEq κ] (l : List κ) :
+    (distinctInOrder l).Nodup ∧ (∀ x, x ∈ distinctInOrder l ↔ x ∈ l) ∧
+      ∀ x y, x ∈ l → y ∈ l →
+        ((distinctInOrder l).idxOf x < (distinctInOrder l).idxOf y ↔ l.idxOf x < l.idxOf y) := by
+  induction l using snoc_induction with
+  | nil => simp [distinctInOrder_nil]
+  | snoc l a ih =>
+    obtain ⟨hnd, hmem, hidx⟩ := ih
+    rw [distinctInOrder_snoc]
+    by_cases ha : a ∈ distinctInOrder l
+    · have hal : a ∈ l := (hmem a).1 ha
+      rw [if_pos ha]
+      refine ⟨hnd, ?_, ?_⟩
+      · intro x; rw [hmem x]; simp only [List.mem_append, List.mem_singleton]
+        constructor
+        · exact Or.inl
+        · rintro (h | rfl); exact h; exact hal
+      · intro x y hx hy
+        have hx' : x ∈ l := by
+          simp only [List.mem_append, List.mem_singleton] at hx; rcases hx with h | rfl; exact h; exact hal
+        have hy' : y ∈ l := by
+          simp only [List.mem_append, List.mem_singleton] at hy; rcases hy with h | rfl; exact h; exact hal
+        rw [List.idxOf_append, List.idxOf_append, if_pos hx', if_pos hy']
+        exact hidx x y hx' hy'
+    · have hal : a ∉ l := fun h => ha ((hmem a).2 h)
+      rw [if_neg ha]
+      refine ⟨?_, ?_, ?_⟩
+      · rw [List.nodup_append]
+        refine ⟨hnd, by simp, ?_⟩
+        intro x hx y hy
+        simp only [List.mem_singleton] at hy
+        subst hy
+        intro hxy; subst hxy; exact ha hx
+      · intro x; simp only [List.mem_append, List.mem_singleton, hmem x]
+      · intro x y hx hy
+        simp only [List.idxOf_append]
+        by_cases hx' : x ∈ l <;> by_cases hy' : y ∈ l
+        · rw [if_pos ((hmem x).2 hx'), if_pos ((hmem y).2 hy'), if_pos hx', if_pos hy']
+          exact hidx x y hx' hy'
+        · have hya : y = a := by
+            simp only [List.mem_append, List.mem_singleton] at hy; rcases hy with h | h; exact absurd h hy'; exact h
+          subst hya
+          rw [if_pos ((hmem x).2 hx'), if_neg ha, if_pos hx', if_neg hy']
+          have h1 := List.idxOf_lt_length_of_mem ((hmem x).2 hx')
+          have h2 := List.idxOf_lt_length_of_mem hx'
+          simp only [List.idxOf_cons, beq_self_eq_true, cond_true]
+          omega
+        · have hxa : x = a := by
+            simp only [List.mem_append, List.mem_singleton] at hx; rcases hx with h | h; exact absurd h hx'; exact h
+          subst hxa
+          rw [if_neg ha, if_pos ((hmem y).2 hy'), if_neg hx', if_pos hy']
+          have h1 := List.idxOf_lt_length_of_mem ((hmem y).2 hy')
+          have h2 := List.idxOf_lt_length_of_mem hy'
+          simp only [List.idxOf_cons, beq_self_eq_true, cond_true]
+          omega
+        · have hxa : x = a := by
+            simp only [List.mem_append, List.mem_singleton] at hx; rcases hx with h | h; exact absurd h hx'; exact h
+          have hya : y = a := by
+            simp only [List.mem_append, List.mem_singleton] at hy; rcases hy with h | h; exact absurd h hy'; exact h
+          subst hxa; subst hya
+          simp
+
+
+/-! ## `IndexMap` -/
+
+theorem indexMapOfList_nil {κ ν} [DecidableEq κ] : indexMapOfList ([] : List (κ × ν)) = [] := rfl
+
+theorem indexMapOfList_snoc {κ ν} [DecidableEq κ] (l : List (κ × ν)) (p : κ × ν) :
+    indexMapOfList (l ++ [p]) = indexMapInsert (indexMapOfList l) p.1 p.2 := by
+  simp [indexMapOfList, List.foldl_append]
+
+theorem any_key_iff {κ ν} [DecidableEq κ] (m : List (κ × ν)) (k : κ) :
+    m.any (fun p => p.1 = k) = true ↔ k ∈ m.map (·.1) := by
+  simp only [List.any_eq_true, decide_eq_true_eq, List.mem_map]
+
+theorem keys_indexMapInsert {κ ν} [DecidableEq κ] (m : List (κ × ν)) (k : κ) (v : ν) :
+    (indexMapInsert m k v).map (·.1) = if k ∈ m.map (·.1) then m.map (·.1) else m.map (·.1) ++ [k] := by
+  unfold indexMapInsert
+  by_cases h : k ∈ m.map (·.1)
+  · rw [if_pos ((any_key_iff m k).2 h), if_pos h, List.map_map]
+    apply List.map_congr_left
+    intro p _
+    by_cases hp : p.1 = k <;> simp [hp]
+  · rw [if_neg (fun h' => h ((any_key_iff m k).1 h')), if_neg h]
+    simp
+
+theorem keys_indexMapOfList {κ ν} [DecidableEq κ] (l : List (κ × ν)) :
+    (indexMapOfList l).map (·.1) = distinctInOrder (l.map (·.1)) := by
+  induction l using snoc_induction with
+  | nil => rfl
+  | snoc l p ih =>
+    rw [indexMapOfList_snoc, keys_indexMapInsert, List.map_append, List.map_singleton, distinctInOrder_snoc, ih]
+
+theorem indexMapOfList_of_nodup {κ ν} [DecidableEq κ] (l : List (κ × ν)) (hnd : (l.map (·.1)).Nodup) :
+    indexMapOfList l = l := by
+  induction l using snoc_induction with
+  | nil => rfl
+  | snoc l p ih =>
+    rw [List.map_append, List.nodup_append] at hnd
+    obtain ⟨h1, _, h3⟩ := hnd
+    rw [indexMapOfList_snoc, ih h1]
+    unfold indexMapInsert
+    have : ¬ (l.any (fun q => q.1 = p.1) = true) := by
+      rw [any_key_iff]
+      intro h
+      exact h3 _ h p.1 (by simp) rfl
+    rw [if_neg this]
+
+theorem lookup_map_replace_ne {κ ν} [DecidableEq κ] (m : List (κ × ν)) (k s : κ) (v : ν)
+    (hs : s ≠ k) : (m.map (fun p => if p.1 = k then (k, v) else p)).lookup s = m.lookup s := by
+  induction m with
+  | nil => rfl
+  | cons q m ih =>
+    obtain ⟨k', v'⟩ := q
+    by_cases hk : k' = k
+    · subst hk
+      simp only [List.map_cons, if_pos, List.lookup_cons, ih]
+      have : (s == k') = false := by simpa using hs
+      simp [this]
+    · simp only [List.map_cons, hk, if_false, List.lookup_cons, ih]
+
+theorem lookup_map_replace_self {κ ν} [DecidableEq κ] (m : List (κ × ν)) (k : κ) (v : ν)
+    (h : k ∈ m.map (·.1)) : (m.map (fun p => if p.1 = k then (k, v) else p)).lookup k = some v := by
+  induction m with
+  | nil => simp at h
+  | cons q m ih =>
+    obtain ⟨k', v'⟩ := q
+    by_cases hk : k' = k
+    · subst hk; simp
+    · have h' : k ∈ m.map (·.1) := by
+        simp only [List.map_cons, List.mem_cons] at h
+        rcases h with h | h
+        · exact absurd h.symm hk
+        · exact h
+      have : (k == k') = false := by simpa using fun h => hk h.symm
+      simp only [List.map_cons, hk, if_false, List.lookup_cons, this, ih h']
+
+theorem lookup_eq_none_of_not_key {κ ν} [DecidableEq κ] (m : List (κ × ν)) (k : κ)
+    (h : k ∉ m.map (·.1)) : m.lookup k = none := by
+  rw [List.lookup_eq_none_iff]
+  intro p hp
+  simp only [bne_iff_ne, ne_eq]
+  intro hk
+  exact h (by rw [hk]; exact List.mem_map_of_mem hp)
+
+theorem lookup_indexMapInsert_self {κ ν} [DecidableEq κ] (m : List (κ × ν)) (k : κ) (v : ν) :
+    (indexMapInsert m k v).lookup k = some v := by
+  unfold indexMapInsert
+  by_cases h : k ∈ m.map (·.1)
+  · rw [if_pos ((any_key_iff m k).2 h)]
+    exact lookup_map_replace_self m k v h
+  · rw [if_neg (fun h' => h ((any_key_iff m k).1 h')), List.lookup_append, lookup_eq_none_of_not_key m k h]
+    simp
+
+theorem lookup_indexMapInsert_ne {κ ν} [DecidableEq κ] (m : List (κ × ν)) (k s : κ) (v : ν) (hs : s ≠ k) :
+    (indexMapInsert m k v).lookup s = m.lookup s := by
+  unfold indexMapInsert
+  split
+  · exact lookup_map_replace_ne m k s v hs
+  · rw [List.lookup_append]
+    have : (s == k) = false := by simpa using hs
+    simp [List.lookup_cons, this]
+
+theorem lookup_indexMapOfList_last {κ ν} [DecidableEq κ] (pre post : List (κ × ν)) (s : κ) (p : ν)
+    (hpost : s ∉ post.map (·.1)) : (indexMapOfList (pre ++ (s, p) :: post)).lookup s = some p := by
+  induction post using snoc_induction with
+  | nil => rw [indexMapOfList_snoc]; exact lookup_indexMapInsert_self _ _ _
+  | snoc post q ih =>
+    have h1 : s ∉ post.map (·.1) := fun h => hpost (by simp only [List.map_append, List.mem_append]; exact Or.inl h)
+    have h2 : s ≠ q.1 := fun h => hpost (by simp [h])
+    have : pre ++ (s, p) :: (post ++ [q]) = (pre ++ (s, p) :: post) ++ [q] := by simp
+    rw [this, indexMapOfList_snoc, lookup_indexMapInsert_ne _ _ _ _ h2, ih h1]
+
+
+theorem bump_comm (l : List Nat) (i j a b : Nat) : bump (bump l i a) j b = bump (bump l j b) i a := by
+  unfold bump
+  apply List.ext_getElem?
+  intro n
+  simp only [List.getElem?_set, List.getD_eq_getElem?_getD, List.length_set]
+  grind
+
+
+theorem isEmpty_append_cons {α} (l r : List α) (a : α) : (l ++ a :: r).isEmpty = false := by
+  cases l <;> rfl
+
+/-- one column of the loop of `tally` -/
+def tallyStep (map : List (String × Nat)) (p : String × GtRes) (st : SiteSt) : Option SiteSt :=
+  match lookupPop map p.1 with
+  | none => some st
+  | some pid =>
+    match p.2 with
+    | .genotype k => some { st with counts := bump st.counts pid k, totals := bump st.totals pid 2 }
+    | .skipped s => some { st with skipped := st.skipped ++ [((lookupSampleId map p.1).getD 0, s)] }
+    | .ploidyError => none
+
+/-- `tally` over (column, genotype) pairs -/
+def tallyP (map : List (String × Nat)) : List (String × GtRes) → SiteSt → Option SiteSt
+  | [], st => some st
+  | p :: ps, st =>
+    match tallyStep map p st with
+    | none => none
+    | some st' => tallyP map ps st'
+
+theorem tally_eq_tallyP (map : List (String × Nat)) (cols : List String) (gts : List GtRes) (st : SiteSt) :
+    tally map cols gts st = tallyP map (cols.zip gts) st := by
+  induction cols generalizing gts st with
+  | nil => simp [tally, tallyP]
+  | cons c cs ih =>
+    cases gts with
+    | nil => simp [tally, tallyP]
+    | cons g gs =>
+      simp only [List.zip_cons_cons, tallyP, tallyStep]
+      unfold tally
+      cases lookupPop map c with
+      | none => simp [ih]
+      | some pid => cases g <;> simp [ih]
+
+/-- what the site classification looks at -/
+def stSumm (s : SiteSt) : List Nat × List Nat × Bool := (s.counts, s.totals, s.skipped.isEmpty)
+
+def summ (o : Option SiteSt) : Option (List Nat × List Nat × Bool) := o.map stSumm
+
+theorem tallyStep_congr (m m' : List (String × Nat)) (hlk : ∀ s, lookupPop m s = lookupPop m' s)
+    (p : String × GtRes) (st st' : SiteSt) (h : stSumm st = stSumm st') :
+    summ (tallyStep m p st) = summ (tallyStep m' p st') := by
+  obtain ⟨c, g⟩ := p
+  obtain ⟨c1, t1, s1⟩ := st
+  obtain ⟨c2, t2, s2⟩ := st'
+  simp only [stSumm, Prod.mk.injEq] at h
+  obtain ⟨rfl, rfl, hs⟩ := h
+  simp only [tallyStep, ← hlk c]
+  cases lookupPop m c with
+  | none => simp [summ, stSumm, hs]
+  | some pid => cases g <;> simp [summ, stSumm, hs, isEmpty_append_cons]
+
+theorem tallyP_congr (m m' : List (String × Nat)) (hlk : ∀ s, lookupPop m s = lookupPop m' s)
+    (ps : List (String × GtRes)) (st st' : SiteSt) (h : stSumm st = stSumm st') :
+    summ (tallyP m ps st) = summ (tallyP m' ps st') := by
+  induction ps generalizing st st' with
+  | nil => simp [tallyP, summ, h]
+  | cons p ps ih =>
+    have hstep := tallyStep_congr m m' hlk p st st' h
+    simp only [tallyP]
+    cases h1 : tallyStep m p st with
+    | none =>
+      cases h2 : tallyStep m' p st' with
+      | none => rfl
+      | some s2 => rw [h1, h2] at hstep; simp [summ] at hstep
+    | some s1 =>
+      cases h2 : tallyStep m' p st' with
+      | none => rw [h1, h2] at hstep; simp [summ] at hstep
+      | some s2 =>
+        rw [h1, h2] at hstep
+        simp only [summ, Option.map_some, Option.some.injEq] at hstep
+        exact ih s1 s2 hstep
+
+theorem tallyP_swap (m : List (String × Nat)) (a b : String × GtRes) (ps : List (String × GtRes)) (st : SiteSt) :
+    summ (tallyP m (a :: b :: ps) st) = summ (tallyP m (b :: a :: ps) st) := by
+  obtain ⟨ca, ga⟩ := a
+  obtain ⟨cb, gb⟩ := b
+  simp only [tallyP, tallyStep]
+  cases lookupPop m ca with
+  | none => cases lookupPop m cb with
+    | none => rfl
+    | some pb => cases gb <;> rfl
+  | some pa => cases lookupPop m cb with
+    | none => cases ga <;> rfl
+    | some pb =>
+      cases ga <;> cases gb <;> try rfl
+      · apply tallyP_congr m m (fun _ => rfl)
+        simp [stSumm, bump_comm]
+      · apply tallyP_congr m m (fun _ => rfl)
+        simp [stSumm, isEmpty_append_cons]
+
+theorem tallyP_perm (m : List (String × Nat)) {ps ps' : List (String × GtRes)} (hp : ps.Perm ps') (st : SiteSt) :
+    summ (tallyP m ps st) = summ (tallyP m ps' st) := by
+  induction hp generalizing st with
+  | nil => rfl
+  | cons p _ ih =>
+    simp only [tallyP]
+    cases tallyStep m p st with
+    | none => rfl
+    | some s => exact ih s
+  | swap a b ps => exact tallyP_swap m b a ps st
+  | trans _ _ ih1 ih2 => exact (ih1 st).trans (ih2 st)
+
+/-- the site is a function of the summary of the tally -/
+theorem readSite_fst_congr (cfg cfg' : SiteCfg) (st st' : SiteSt) (gts gts' : List GtRes)
+    (hpt : cfg.projectTo = cfg'.projectTo)
+    (h : summ (tally cfg.map cfg.cols gts ⟨st.counts.map (fun _ => 0), st.totals.map (fun _ => 0), []⟩) =
+         summ (tally cfg'.map cfg'.cols gts' ⟨st'.counts.map (fun _ => 0), st'.totals.map (fun _ => 0), []⟩)) :
+    (readSite cfg st gts).1 = (readSite cfg' st' gts').1 := by
+  simp only [readSite, hpt]
+  revert h
+  cases tally cfg.map cfg.cols gts ⟨st.counts.map (fun _ => 0), st.totals.map (fun _ => 0), []⟩ with
+  | none =>
+    cases tally cfg'.map cfg'.cols gts' ⟨st'.counts.map (fun _ => 0), st'.totals.map (fun _ => 0), []⟩ with
+    | none => intro _; rfl
+    | some s2 => intro h; simp [summ] at h
+  | some s1 =>
+    cases tally cfg'.map cfg'.cols gts' ⟨st'.counts.map (fun _ => 0), st'.totals.map (fun _ => 0), []⟩ with
+    | none => intro h; simp [summ] at h
+    | some s2 =>
+      intro h
+      simp only [summ, Option.map_some, Option.some.injEq, stSumm, Prod.mk.injEq] at h
+      obtain ⟨h1, h2, h3⟩ := h
+      simp only [h1, h2, h3]
+
+
+/-! ## sample map -/
+
+theorem distinctInOrder_map_inj {κ ι} [DecidableEq κ] [DecidableEq ι] (L : List κ) (f : κ → ι)
+    (hinj : ∀ x ∈ L, ∀ y ∈ L, f x = f y → x = y) :
+    distinctInOrder (L.map f) = (distinctInOrder L).map f := by
+  induction L using snoc_induction with
+  | nil => rfl
+  | snoc L a ih =>
+    have ih' := ih (fun x hx y hy => hinj x (by simp [hx]) y (by simp [hy]))
+    rw [List.map_append, List.map_singleton, distinctInOrder_snoc, distinctInOrder_snoc, ih']
+    have hiff : f a ∈ (distinctInOrder L).map f ↔ a ∈ distinctInOrder L := by
+      constructor
+      · intro h
+        obtain ⟨x, hx, hfx⟩ := List.mem_map.1 h
+        have hxL : x ∈ L := ((distinct_spec L).2.1 x).1 hx
+        have := hinj x (by simp [hxL]) a (by simp) hfx
+        exact this ▸ hx
+      · exact fun h => List.mem_map_of_mem h
+    by_cases ha : a ∈ distinctInOrder L
+    · rw [if_pos (hiff.2 ha), if_pos ha]
+    · rw [if_neg (fun h => ha (hiff.1 h)), if_neg ha]; simp
+
+theorem idxOf_inj_of_mem {κ} [DecidableEq κ] (D : List κ) (x y : κ) (hx : x ∈ D)
+    (h : D.idxOf x = D.idxOf y) : x = y := by
+  have h1 : D.idxOf x < D.length := List.idxOf_lt_length_of_mem hx
+  have h2 : D.idxOf y < D.length := h ▸ h1
+  have e1 := List.getElem_idxOf h1
+  have e2 := List.getElem_idxOf h2
+  rw [← e1, ← e2]
+  simp only [h]
+
+/-- the general shape of `sampleMap` -/
+theorem sampleMap_eq (l : List (String × Pop)) :
+    sampleMap l = (indexMapOfList l).map
+      (fun p => (p.1, (distinctInOrder ((indexMapOfList l).map (·.2))).idxOf p.2)) := rfl
+
+theorem keys_sampleMap (l : List (String × Pop)) : (sampleMap l).map (·.1) = distinctInOrder (l.map (·.1)) := by
+  rw [sampleMap_eq, List.map_map, ← keys_indexMapOfList]
+  rfl
+
+/-- population ids of `R.map (p.1, D.idxOf p.2)`, `D` the distinct labels of `R` -/
+theorem numPops_idx (R : List (String × Pop)) :
+    numPops (R.map (fun p => (p.1, (distinctInOrder (R.map (·.2))).idxOf p.2))) =
+      (distinctInOrder (R.map (·.2))).length := by
+  unfold numPops
+  rw [List.map_map]
+  have : ((fun p : String × Nat => p.2) ∘ fun p : String × Pop => (p.1, (distinctInOrder (R.map (·.2))).idxOf p.2))
+      = (fun x => (distinctInOrder (R.map (·.2))).idxOf x) ∘ (fun p : String × Pop => p.2) := rfl
+  rw [this, ← List.map_map, distinctInOrder_map_inj, List.length_map]
+  intro x hx y _ hxy
+  exact idxOf_inj_of_mem _ x y (((distinct_spec _).2.1 x).2 hx) hxy
+
+theorem mapShape_idx (R : List (String × Pop)) :
+    mapShape (R.map (fun p => (p.1, (distinctInOrder (R.map (·.2))).idxOf p.2))) =
+      (distinctInOrder (R.map (·.2))).map (fun p => 2 * (R.filter (fun sp => sp.2 = p)).length + 1) := by
+  unfold mapShape
+  rw [numPops_idx]
+  apply List.ext_getElem
+  · simp
+  · intro i h1 h2
+    have hi : i < (distinctInOrder (R.map (·.2))).length := by simpa using h2
+    simp only [List.getElem_map, List.getElem_range, List.filter_map, List.length_map]
+    have : R.filter ((fun p : String × Nat => decide (p.2 = i)) ∘
+          fun p : String × Pop => (p.1, (distinctInOrder (R.map (·.2))).idxOf p.2))
+        = R.filter (fun sp => decide (sp.2 = (distinctInOrder (R.map (·.2)))[i])) := by
+      apply List.filter_congr
+      intro sp hsp
+      have hmem : sp.2 ∈ distinctInOrder (R.map (·.2)) :=
+        ((distinct_spec _).2.1 sp.2).2 (List.mem_map_of_mem hsp)
+      simp only [Function.comp]
+      congr 1
+      apply propext
+      constructor
+      · intro h
+        have hlt : (distinctInOrder (R.map (·.2))).idxOf sp.2 < (distinctInOrder (R.map (·.2))).length :=
+          List.idxOf_lt_length_of_mem hmem
+        have := List.getElem_idxOf hlt
+        rw [← this]
+        simp only [h]
+      · intro h
+        rw [h]
+        exact (distinct_spec (R.map (·.2))).1.idxOf_getElem i hi
+    rw [this]
+    omega
+
+theorem sampleMap_of_nodup (l : List (String × Pop)) (hnd : (l.map (·.1)).Nodup) :
+    sampleMap l = l.map (fun sp => (sp.1, (distinctInOrder (l.map (·.2))).idxOf sp.2)) := by
+  rw [sampleMap_eq, indexMapOfList_of_nodup l hnd]
+
+theorem mapShape_sampleMap_of_nodup (l : List (String × Pop)) (hnd : (l.map (·.1)).Nodup) :
+    mapShape (sampleMap l) =
+      (distinctInOrder (l.map (·.2))).map (fun p => 2 * (l.filter (fun sp => sp.2 = p)).length + 1) := by
+  rw [sampleMap_of_nodup l hnd, mapShape_idx]
+
+theorem numPops_sampleMap_of_nodup (l : List (String × Pop)) (hnd : (l.map (·.1)).Nodup) :
+    numPops (sampleMap l) = (distinctInOrder (l.map (·.2))).length := by
+  rw [sampleMap_of_nodup l hnd, numPops_idx]
+
+/-! ## lookup under reordering -/
+
+theorem filter_key_length_le_one {ν} (m : List (String × ν)) (hnd : (m.map (·.1)).Nodup) (s : String) :
+    (m.filter (fun p => p.1 = s)).length ≤ 1 := by
+  induction m with
+  | nil => simp
+  | cons q m ih =>
+    simp only [List.map_cons, List.nodup_cons] at hnd
+    by_cases hq : q.1 = s
+    · have : m.filter (fun p => decide (p.1 = s)) = [] := by
+        rw [List.filter_eq_nil_iff]
+        intro a ha hk
+        simp only [decide_eq_true_eq] at hk
+        exact hnd.1 (by rw [hq, ← hk]; exact List.mem_map_of_mem ha)
+      simp [hq, this]
+    · simp only [List.filter_cons, hq, decide_false, Bool.false_eq_true, if_false]
+      exact ih hnd.2
+
+theorem perm_eq_of_length_le_one {α} {l l' : List α} (hp : l.Perm l') (h : l.length ≤ 1) : l = l' := by
+  match l, h with
+  | [], _ => exact (List.nil_perm.1 hp).symm
+  | [a], _ => exact List.singleton_perm.1 hp
+
+theorem find?_key_perm {ν} {m m' : List (String × ν)} (hp : m.Perm m') (hnd : (m.map (·.1)).Nodup) (s : String) :
+    m.find? (fun p => p.1 = s) = m'.find? (fun p => p.1 = s) := by
+  rw [← List.head?_filter, ← List.head?_filter,
+    perm_eq_of_length_le_one (hp.filter _) (filter_key_length_le_one m hnd s)]
+
+theorem lookupPop_perm {m m' : List (String × Nat)} (hp : m.Perm m') (hnd : (m.map (·.1)).Nodup) (s : String) :
+    lookupPop m s = lookupPop m' s := by
+  unfold lookupPop
+  rw [find?_key_perm hp hnd s]
+
+theorem sampleMap_reorder (l l' : List (String × Pop)) (hnd : (l.map (·.1)).Nodup) (hp : l.Perm l')
+    (ho : distinctInOrder (l.map (·.2)) = distinctInOrder (l'.map (·.2))) :
+    (∀ s, lookupPop (sampleMap l) s = lookupPop (sampleMap l') s) ∧ mapShape (sampleMap l) = mapShape (sampleMap l')
+      ∧ numPops (sampleMap l) = numPops (sampleMap l') := by
+  have hnd' : (l'.map (·.1)).Nodup := (hp.map _).nodup hnd
+  refine ⟨?_, ?_, ?_⟩
+  · intro s
+    apply lookupPop_perm
+    · rw [sampleMap_of_nodup l hnd, sampleMap_of_nodup l' hnd', ho]
+      exact hp.map _
+    · rw [keys_sampleMap]
+      rw [← keys_indexMapOfList, indexMapOfList_of_nodup l hnd]; exact hnd
+  · rw [mapShape_sampleMap_of_nodup l hnd, mapShape_sampleMap_of_nodup l' hnd', ho]
+    apply List.map_congr_left
+    intro p _
+    rw [(hp.filter _).length_eq]
+  · rw [numPops_sampleMap_of_nodup l hnd, numPops_sampleMap_of_nodup l' hnd', ho]
+
+
+/-! ## `--samples` / `--samples-file` parsing -/
+
+theorem splitOnce_none (c : Char) (l : List Char) (h : c ∉ l) : splitOnce c l = none := by
+  induction l with
+  | nil => rfl
+  | cons x xs ih =>
+    simp only [List.mem_cons, not_or] at h
+    have hxc : ¬ x = c := fun hx => h.1 hx.symm
+    simp [splitOnce, hxc, ih h.2]
+
+theorem splitOnce_append (c : Char) (k v : List Char) (h : c ∉ k) : splitOnce c (k ++ c :: v) = some (k, v) := by
+  induction k with
+  | nil => simp [splitOnce]
+  | cons x xs ih =>
+    simp only [List.mem_cons, not_or] at h
+    have hxc : ¬ x = c := fun hx => h.1 hx.symm
+    simp [splitOnce, hxc, ih h.2]
+
+theorem parseSampleArg_named (k v : List Char) (h : '=' ∉ k) :
+    parseSampleArg (k ++ '=' :: v) = (String.ofList k, .named (String.ofList v)) := by
+  simp [parseSampleArg, splitOnce_append _ k v h]
+
+theorem parseSampleArg_unnamed (k : List Char) (h : '=' ∉ k) :
+    parseSampleArg k = (String.ofList k, .unnamed) := by
+  simp [parseSampleArg, splitOnce_none _ k h]
+
+theorem parseSampleLine_named (k v : List Char) (h : '\t' ∉ k) :
+    parseSampleLine (k ++ '\t' :: v) = (String.ofList k, .named (String.ofList v)) := by
+  simp [parseSampleLine, splitOnce_append _ k v h]
+
+theorem parseSampleLine_unnamed (k : List Char) (h : '\t' ∉ k) :
+    parseSampleLine k = (String.ofList k, .unnamed) := by
+  simp [parseSampleLine, splitOnce_none _ k h]
+
+theorem splitAll_ne_nil (c : Char) (s : List Char) : splitAll c s ≠ [] := by
+  induction s with
+  | nil => simp [splitAll]
+  | cons x xs ih =>
+    unfold splitAll
+    split
+    · simp
+    · split <;> simp
+
+theorem splitAll_token (c : Char) (tok : List Char) (h : c ∉ tok) : splitAll c tok = [tok] := by
+  induction tok with
+  | nil => rfl
+  | cons x xs ih =>
+    simp only [List.mem_cons, not_or] at h
+    have hxc : ¬ x = c := fun hx => h.1 hx.symm
+    simp only [splitAll, ih h.2]
+    simp [hxc]
+
+theorem splitAll_token_sep (c : Char) (tok rest : List Char) (h : c ∉ tok) :
+    splitAll c (tok ++ c :: rest) = tok :: splitAll c rest := by
+  induction tok with
+  | nil =>
+    simp only [List.nil_append, splitAll]
+    split
+    · rename_i h0; exact absurd h0 (splitAll_ne_nil c rest)
+    · rename_i h0; simp [h0]
+  | cons x xs ih =>
+    simp only [List.mem_cons, not_or] at h
+    have hxc : ¬ x = c := fun hx => h.1 hx.symm
+    simp only [List.cons_append, splitAll, ih h.2]
+    simp [hxc]
+
+theorem splitAll_intercalate (c : Char) (items : List (List Char)) (hne : items ≠ [])
+    (h : ∀ t ∈ items, c ∉ t) : splitAll c (List.intercalate [c] items) = items := by
+  induction items with
+  | nil => exact absurd rfl hne
+  | cons t rest ih =>
+    cases rest with
+    | nil => simp [List.intercalate, splitAll_token c t (h t (by simp))]
+    | cons u rest =>
+      have := ih (by simp) (fun x hx => h x (by simp [hx]))
+      simp only [List.intercalate, List.intersperse_cons_cons, List.flatten_cons, List.singleton_append] at this ⊢
+      rw [splitAll_token_sep c t _ (h t (by simp)), this]
+
+theorem splitAll_intercalate_nl (c : Char) (items : List (List Char)) (hne : items ≠ [])
+    (h : ∀ t ∈ items, c ∉ t) : splitAll c (List.intercalate [c] items ++ [c]) = items ++ [[]] := by
+  induction items with
+  | nil => exact absurd rfl hne
+  | cons t rest ih =>
+    cases rest with
+    | nil =>
+      simp only [List.intercalate, List.intersperse_singleton, List.flatten_cons, List.flatten_nil,
+        List.append_nil]
+      rw [splitAll_token_sep c t [] (h t (by simp))]
+      rfl
+    | cons u rest =>
+      have := ih (by simp) (fun x hx => h x (by simp [hx]))
+      simp only [List.intercalate, List.intersperse_cons_cons, List.flatten_cons,
+        List.append_assoc, List.cons_append, List.nil_append] at this ⊢
+      rw [splitAll_token_sep c t _ (h t (by simp)), this]
+
+theorem parseSamplesArg_intercalate (items : List (List Char)) (hne : items ≠ []) (h : ∀ t ∈ items, ',' ∉ t) :
+    parseSamplesArg (List.intercalate [','] items) = items.map parseSampleArg := by
+  rw [parseSamplesArg, splitAll_intercalate ',' items hne h]
+
+theorem parseSamplesFile_intercalate_nl (items : List (List Char)) (hne : items ≠ [])
+    (h : ∀ t ∈ items, '\n' ∉ t) :
+    parseSamplesFile (List.intercalate ['\n'] items ++ ['\n']) = items.map parseSampleLine := by
+  simp [parseSamplesFile, splitAll_intercalate_nl '\n' items hne h]
+
+theorem parseSamplesFile_intercalate (items : List (List Char)) (hne : items ≠ [])
+    (h : ∀ t ∈ items, '\n' ∉ t) (hlast : ∀ t ∈ items, t ≠ []) :
+    parseSamplesFile (List.intercalate ['\n'] items) = items.map parseSampleLine := by
+  have : items.getLast? ≠ some [] := by
+    intro hl
+    exact hlast [] (List.mem_of_getLast? hl) rfl
+  simp [parseSamplesFile, splitAll_intercalate '\n' items hne h, this]
+
+/-! ## builder -/
+
+theorem buildSite_nil (project : Option (List Nat)) (cols : List String) :
+    buildSite (some []) project cols = .error .emptySamplesMap := rfl
+
+
+theorem buildSite_unknown (l : List (String × Pop)) (project : Option (List Nat)) (cols : List String)
+    (h : ∃ sp ∈ l, sp.1 ∉ cols) :
+    ∃ s, buildSite (some l) project cols = .error (.unknownSample s) ∧ s ∉ cols ∧ s ∈ l.map (·.1) := by
+  obtain ⟨sp, hsp, hnc⟩ := h
+  have hk : sp.1 ∈ (sampleMap l).map (·.1) := by
+    rw [keys_sampleMap, (distinct_spec _).2.1]
+    exact List.mem_map_of_mem hsp
+  obtain ⟨q, hq, hq1⟩ := List.mem_map.1 hk
+  have hne : (sampleMap l).isEmpty = false := by
+    cases hm : sampleMap l with
+    | nil => rw [hm] at hq; simp at hq
+    | cons _ _ => rfl
+  cases hf : (sampleMap l).find? (fun p => !cols.contains p.1) with
+  | none =>
+    rw [List.find?_eq_none] at hf
+    have := hf q hq
+    simp only [hq1] at this
+    simp [hnc] at this
+  | some r =>
+    have hr := List.find?_some hf
+    have hrm := List.mem_of_find?_eq_some hf
+    refine ⟨r.1, ?_, ?_, ?_⟩
+    · simp only [buildSite, hne, hf]
+      simp
+    · simpa using hr
+    · have : r.1 ∈ (sampleMap l).map (·.1) := List.mem_map_of_mem hrm
+      rw [keys_sampleMap, (distinct_spec _).2.1] at this
+      exact this
+
 end Sfs
